@@ -67,6 +67,10 @@ def function(ex: I.Executor, f, args, kwargs):
         return sp(ex, *args)
     if hasattr(f, 'symbolic') and type(f).__name__ == 'OpaqueInt':
         return f.symbolic(ex, *args)
+    if f is object.__init__ or f is int.__init__ or f is float.__init__ or f is str.__init__:
+        # object.__init__ on an already constructed builtin-subclass instance: no effect, returns None
+        if len(args) == 1 and not kwargs:
+            return NONE
     if f is isinstance:
         return VBool(isinstance_(ex, args[0], args[1]))
     if f is len:
